@@ -120,7 +120,63 @@ def gen(ctx):
     return items
 
 
+MIB = 1 << 20
+
+
+def bigart_cases(ctx):
+    """Pictures and chunk limits of real-world magnitude (the schedules above stay below 70 000 bytes because their pictures travel in
+    the case text and through the extracted model): run by the harness alone against a server task of its own (harness/src/artcases.rs)
+    and judged here from the arguments alone."""
+    rng = ctx.rng
+    cases = []
+    for src in "efu":
+        cases += [f"bigart {src} 100000 8192 1", f"bigart {src} 8193 8192 0", f"bigart {src} 8192 8192 1", f"bigart {src} 1 8192 0"]
+    # one chunk larger than 8 MiB (MPD's default output buffer; binarylimit may be raised above it), many chunks of a large picture,
+    # sizes around multiples of the limit, a limit larger than the picture
+    cases += [f"bigart e {8 * MIB + 4099} {8 * MIB + 1} 1", f"bigart f {8 * MIB + 1} {16 * MIB} 0", f"bigart u {20 * MIB + 5} {9 * MIB} 0",
+              f"bigart e {3 * MIB} 65536 1", f"bigart f {MIB + 1} {MIB} 0", f"bigart e {2 * MIB - 1} {MIB} 0", f"bigart e 70000 1000000 1"]
+    for _ in range(6 if ctx.tier == "quick" else 60):
+        limit = rng.choice([1000, 4096, 8192, 65536, 100000, MIB, 4 * MIB])
+        k = rng.choice([1, 2, 3, 7])
+        size = max(1, k * limit + rng.choice([-1, 0, 1, rng.randrange(limit)]))
+        if size // limit > 3000:
+            continue
+        cases.append(f"bigart {rng.choice('efu')} {size} {limit} {rng.choice('01')}")
+    if ctx.tier == "thorough":
+        cases += [f"bigart e {64 * MIB + 3} {32 * MIB} 1", f"bigart f {33 * MIB} {64 * MIB} 0", f"bigart e {16 * MIB} {16 * MIB} 0", f"bigart u {5 * MIB} 4096 0"]
+    return cases
+
+
+def bigart_expected(case):
+    _, src, size, limit, mime = case.split(" ")
+    size, limit = int(size), int(limit)
+    chunks = max(1, -(-size // limit))
+    m = "696d6167652f6a706567" if (src == "e" and mime == "1") else "~"
+    total = chunks if src == "e" else chunks + 1
+    return (f"some len={size} ", f" firstdiff=~ mime={m} requests={total} serving={chunks} offsets_exact=1 ")
+
+
+def judge_bigart(case, out):
+    a, b_ = bigart_expected(case)
+    if out.startswith(a) and b_ in out + " ":
+        return None
+    _, src, size, limit, mime = case.split(" ")
+    return (f"album_art for a picture of {size} bytes ({ {'e': 'embedded', 'f': 'cover file', 'u': 'cover file, readpicture unknown'}[src]}"
+            f"{', with a type' if mime == '1' and src == 'e' else ''}) served in chunks of {limit} bytes: got `{out[:300]}`; expected the "
+            f"{size} bytes unchanged ({a.strip()} ...{b_.strip()})")
+
+
 def run(ctx, only=None):
+    if only is not None and only and isinstance(only[0], str):
+        outs = ctx.run_impl(only)
+        bad = 0
+        for c, o in zip(only, outs):
+            print("case:", c, "\nimpl:", o[:600])
+            m = judge_bigart(c, o)
+            if m:
+                bad += 1
+                print(f"VIOLATION property=C17 replay=(this case) {m}")
+        return 1 if bad else 0
     items = only if only is not None else gen(ctx)
     scheds = [s for s, _ in items]
     results = L.run_schedules(ctx, scheds)
@@ -168,19 +224,32 @@ def run(ctx, only=None):
     if only is not None:
         for r in results:
             print("labels:", " ".join(r["sched"].labels)[:800], "\nimpl  :", r["impl_raw"][:2500], "\nmodel :", " ".join(r["model_segs"])[:2500])
+    big = []
+    if only is None:
+        big = bigart_cases(ctx)
+        for c, o in zip(big, ctx.run_impl(big)):
+            m = judge_bigart(c, o)
+            if m:
+                fails.append(Failure(c, m, extra={"bigart": True}))
     return finish(
-        ctx, evaluations=len(scheds), distinct_nontrivial=nontrivial,
+        ctx, evaluations=len(scheds) + len(big), distinct_nontrivial=nontrivial + len(big),
         rule="Client::album_art against a picture-holding simulated server: sizes 0,1,L-1,L,L+1,3L,3L+1,200,10000,70000 x chunk limits 1,2,3,64,8192 "
              "(combinations needing <= 260 requests), payloads made of protocol look-alikes / random / sequential bytes, sources embedded (with and "
              "without MIME), cover file, both, neither (empty reply or ACK 50), readpicture unknown (ACK 5) or failing with another code, with a "
              "second caller, notifications, the re-idle timer and partial deliveries interleaved; oracle from the server configuration alone: result "
-             "bytes and MIME, strictly increasing offsets from 0, request count <= size+3, fallback exactly when demanded; non-trivial = > 2 requests",
-        samples=[s.note for s in scheds[:3]], distribution={"schedules": len(scheds), "picture_requests": reqs_total},
+             "bytes and MIME, strictly increasing offsets from 0, request count <= size+3, fallback exactly when demanded; non-trivial = > 2 requests. "
+             "Plus, implementation only (harness-internal server, judged from the arguments): pictures of 1 byte .. 20 MiB (64 MiB thorough) in chunks "
+             "of 1000 bytes .. 16 MiB (64 MiB), including single chunks above 8 MiB, sizes at k*limit-1, k*limit, k*limit+1, all three sources: "
+             "the bytes unchanged, the type, one request per chunk at offsets 0, L, 2L, ...",
+        samples=[s.note for s in scheds[:3]] + big[:2], distribution={"schedules": len(scheds), "picture_requests": reqs_total, "large_pictures": len(big),
+                 "largest_picture_bytes": max([int(c.split(" ")[2]) for c in big] or [0]), "largest_chunk_limit": max([int(c.split(" ")[3]) for c in big] or [0])},
         oracle_failures=fails, disagreements=dis,
     )
 
 
 def replay(ctx, payload):
+    if payload.get("extra", {}).get("bigart"):
+        return run(ctx, only=list(payload.get("cases", [])))
     items = []
     cfx = payload.get("extra", {}).get("cf")
     for c in payload.get("cases", []):
